@@ -106,3 +106,13 @@ def lookup_ok(ts, t, unit, factor, policy):
     # away from exact ties created by the decimal conversion constants the answer must be the reference one
     want = ref_lookup(list(ts), tq, policy)
     return got == want
+
+
+def defaults_consistent(kind, nsamp, s, k):
+    """arguments left at their defaults mean what the documentation says: position 0 and no merge for get_trajectory, the 'closest' policy for get_sample_index"""
+    tr, ns, nc = traj(kind, nsamp)
+    a, b = tr.get_trajectory(s), tr.get_trajectory(s, 0, merge=False)
+    if list(a.value) != list(b.value) or a.units != b.units:
+        return False
+    t = UnitValue(0.25 * k, "s")
+    return tr.get_sample_index(t) == tr.get_sample_index(t, "closest") == tr.get_sample_index(t, policy="closest")
